@@ -70,6 +70,21 @@
   `uri_hdr_list_any_schedule`: a list of the grammar is decomposed exactly as in `uri_param_list` / `uri_hdr_list`
   (offset, verdict, total count, slots, type flags) under every chunk schedule.
 
+  SOUNDNESS for ALL inputs (`Sipsp.Proofs.ParamSound`; every buffer ≤ 65,535 bytes, offset and option word, the
+  end-of-input option included; new object / new or reset list): `tokparam_ok_iff`, `tokparam_sound`,
+  `tokparam_complete`: ParseTokenParam returns OK / MoreValues / EOH iff the text at the offset is a parameter of the
+  grammar `PSParam`, which fixes offset, verdict and the complete object; `grammar_is_accepted`,
+  `accepted_is_grammar_or_extra`: `PSParam` is the grammar `GParam` above widened by exactly four documented shapes —
+  (a) nothing before the end of header / input (EOH, object untouched), (b) at the very start of a call the terminator
+  is not special (`?a;b` with the '?' terminator outside URI mode: name `?a`), (c) with the space terminator a token
+  glued to a closing quote (`a="b"c`), (d) `name=` directly followed by the terminator / end (empty value recorded /
+  no value recorded); `tokparam_charset`, `tokparam_fields`: an accepted parameter has a non-empty name of allowed
+  bytes inside the buffer, `all` covers it, the value is empty, an unquoted run of allowed bytes or a complete quoted
+  string — no byte outside the documented set outside quotes; `uriparams_ok_iff`, `urihdrs_ok_iff`: the wrappers
+  return OK / EOH iff the text is a list of such parameters, N = number of items, every stored element is the
+  corresponding item with its type; `list_items_named_or_empty_list`: every item has a non-empty name except for the
+  empty list (the phantom parameter, known finding F17 — proved to be the only place it occurs); `more_values_advances`.
+
   NOT proved here:
   * the composition above with `POptInputEndF` set on the last call;
     without `POptInputEndF` a parameter that runs into the end of the buffer gives `MoreBytes` (resumption: C02);
@@ -93,6 +108,7 @@
 -/
 import Sipsp.Proofs.ParamSpec
 import Sipsp.Proofs.ShiftParams
+import Sipsp.Proofs.ParamSound
 
 namespace Sipsp.C17
 open Sipsp
@@ -586,5 +602,58 @@ theorem uri_param_list_any_schedule : type_of% @Sipsp.uri_param_list_any_schedul
 
 /-- [EXPORT C17] **C17 for every chunk schedule, ParseAllURIHdrs** (separator '&') -/
 theorem uri_hdr_list_any_schedule : type_of% @Sipsp.uri_hdr_list_any_schedule := @Sipsp.uri_hdr_list_any_schedule
+
+/-! ### soundness for ALL inputs: accepted <=> a parameter / list of the (widened) grammar (proved in `Sipsp.Proofs.ParamSound`) -/
+
+/-- **ParseTokenParam accepts exactly the parameters of `PSParam`, and reports them exactly as described**: for every
+    buffer within the 65,535-byte limit, every offset and every option word (end-of-input option included), on a
+    new object -/
+theorem tokparam_ok_iff : type_of% @Sipsp.tokparam_ok_iff := @Sipsp.tokparam_ok_iff
+
+/-- **SOUNDNESS of ParseTokenParam** (every buffer within the 65,535-byte limit, every offset, every option word —
+    the end-of-input option included —, a new object): a result with verdict OK / MoreValues / EOH is one of the
+    parameters described by `PSParam` -/
+theorem tokparam_sound : type_of% @Sipsp.parseTokenParam_sound := @Sipsp.parseTokenParam_sound
+
+/-- **COMPLETENESS for the same description**: ParseTokenParam reports every `PSParam` exactly as described -/
+theorem tokparam_complete : type_of% @Sipsp.parseTokenParam_complete := @Sipsp.parseTokenParam_complete
+
+/-- **charset**: an accepted parameter never contains a byte outside the documented set (`docAllowed`: letters,
+    digits, `-_.!~*'()`, `%`, `[]/:+$`, plus `&` in URI-parameter mode and `?` otherwise) in its name or — outside
+    quotes — in its value -/
+theorem tokparam_charset : type_of% @Sipsp.tokparam_charset := @Sipsp.tokparam_charset
+
+/-- **the fields of an accepted parameter**: nothing was parsed (`EOH`, the object is untouched: the empty list
+    item at the end of the header / input), or the name is a non-empty run of allowed bytes inside the buffer at or
+    after the start offset, `all` starts with the name and covers it, and the value is empty, an unquoted run of
+    allowed bytes (none of them separator or terminator), or a complete quoted string -/
+theorem tokparam_fields : type_of% @Sipsp.tokparam_fields := @Sipsp.tokparam_fields
+
+/-- every parameter of the grammar of `ParamSpec` is one of `PSParam` -/
+theorem grammar_is_accepted : type_of% @Sipsp.GParam.psParam := @Sipsp.GParam.psParam
+
+/-- **an accepted parameter is a `GParam` or one of four documented shapes outside that grammar**:
+    (a) nothing parsed: the empty item at the end of the header / input (`EOH`, untouched object);
+    (b) a name whose FIRST byte is the terminator — possible only when the terminator is an allowed byte, i.e. `?`
+        with `POptTokQmTermF` outside URI-parameter mode (at the start of a call the terminator is not special);
+    (c) the white-space terminator `POptTokSpTermF` ended the parameter (`OK`);
+    (d) `name =` followed by the terminator (empty value recorded there, `OK`) or by the end of the header / input
+        (no value recorded, `EOH`). -/
+theorem accepted_is_grammar_or_extra : type_of% @Sipsp.PSParam.ps_gparam_or_extra := @Sipsp.PSParam.ps_gparam_or_extra
+
+/-- **ParseAllURIParams accepts exactly the lists of `PSList`** (on a list object in its reset state; separator ';'
+    added by the wrapper): it returns `OK` / `EOH` iff the text is such a list, and then the offset and verdict are
+    those of the list end, every item is counted and pushed, in order, with the type of its name -/
+theorem uriparams_ok_iff : type_of% @Sipsp.parseAllURIParams_ok_iff := @Sipsp.parseAllURIParams_ok_iff
+
+/-- **ParseAllURIHdrs accepts exactly the lists of `PSList`** (separator '&') -/
+theorem urihdrs_ok_iff : type_of% @Sipsp.parseAllURIHdrs_ok_iff := @Sipsp.parseAllURIHdrs_ok_iff
+
+/-- **the phantom parameter of the empty list**: in a list accepted by the wrappers every item has a non-empty
+    name — except that an EMPTY list (only empty items / white space up to the end of the header or input) is
+    reported as ONE item with an untouched object (empty name), verdict `EOH` -/
+theorem list_items_named_or_empty_list : type_of% @Sipsp.PSList.ps_named_or_empty := @Sipsp.PSList.ps_named_or_empty
+
+theorem more_values_advances : type_of% @Sipsp.PSParam.ps_more_range := @Sipsp.PSParam.ps_more_range
 
 end Sipsp.C17
